@@ -26,7 +26,7 @@ PROP = "C12"
 NAME = "paramsim"
 RULE = (
     "paramsim: one run = acyclic expression graph over <=6 parameters in a seeded declaration order, constructed through one of "
-    "6 constructors, followed by 5-30 ops (UPDATE/FD_UPDATE/EXPORT/HISTORY/COPY/REUPDATE/RELOAD/faulted UPDATE); fixed plans enumerate all "
+    "6 constructors, followed by 5-30 ops (UPDATE/FD_UPDATE/EXPORT/HISTORY/COPY/REUPDATE/REDEFINE/RELOAD/faulted UPDATE); fixed plans enumerate all "
     "declaration orders of all DAGs on 3 (quick) / 4 (thorough) nodes; distinct = digest of (graph shape, declaration permutation "
     "class, constructor, op-kind sequence); non-trivial = graph has an expression depending on another expression AND at least one "
     "update happened after construction"
@@ -181,8 +181,11 @@ def generate(rng: random.Random, tier: str) -> dict:
                     "repeat": rng.choice([1, 1, 2, 5, 40]),
                 }
             )
-        elif r < 0.90:
+        elif r < 0.885:
             ops.append({"op": "UPDATE_ALL_FREE", "values": [round(rng.uniform(-2.0, 3.0), 5) for _ in range(6)]})
+        elif r < 0.90:
+            # the user re-defines the expression of an expression parameter (same dependencies, other formula)
+            ops.append({"op": "REDEFINE", "which": rng.randrange(6), "template": rng.randrange(12), "then_update": rng.random() < 0.7})
         else:
             how = rng.choice(["unknown_label", "length", "get_raises", "overflow"])
             k = rng.randint(1, len(base_labels))
@@ -634,6 +637,28 @@ class Run:
                             if not self.consistent(params, model, f"after FD_UPDATE step h={h:g} on {labs[i]}"):
                                 break
                         rec.probe("finite_difference_sized_update")
+                elif kind == "REDEFINE":
+                    exprs = [lab for lab in model.labels if model.expr[lab] is not None]
+                    if exprs:
+                        lab = exprs[op["which"] % len(exprs)]
+                        deps = model.deps[lab]
+                        refs = [f"${d}" for d in deps]
+                        pool = TEMPLATES_1 if len(deps) == 1 else TEMPLATES_2 if len(deps) == 2 else TEMPLATES_3
+                        new_expr = (
+                            pool[op["template"] % len(pool)].format(*refs) if len(deps) <= 3 else " * ".join(refs)
+                        )
+                        params.get(lab).expression = new_expr
+                        model.expr[lab] = new_expr
+                        model.deps[lab] = [m.rstrip(".") for m in model._ref.findall(new_expr)]
+                        model.topo = model._toposort()
+                        if op["then_update"] and model.free_labels():
+                            labs, vals, lo, hi = params.get_label_value_and_bounds_arrays(exclude_non_vary=True)
+                            params.set_from_label_and_value_arrays(labs, np.array(vals))
+                            model.set_optimizer_values(labs, vals)
+                        else:
+                            params.update_parameter_expression()
+                        updates += 1
+                        rec.probe("expression_redefined")
                 elif kind == "EXPORT":
                     labs, vals, lo, hi = params.get_label_value_and_bounds_arrays(exclude_non_vary=op["exclude_non_vary"])
                     want = model.values()
@@ -773,7 +798,7 @@ class Run:
                 ok = self.consistent(
                     params, model, tag + (" (first successful op after a failed update)" if pending_recovery else "")
                 )
-            if ok and pending_recovery and kind in ("UPDATE", "UPDATE_ALL_FREE", "FD_UPDATE", "REUPDATE", "EXPORT", "HISTORY"):
+            if ok and pending_recovery and kind in ("UPDATE", "UPDATE_ALL_FREE", "FD_UPDATE", "REUPDATE", "REDEFINE", "EXPORT", "HISTORY"):
                 rec.oracle_after_fault += 1
                 rec.probe("recovered_after_failed_update")
                 pending_recovery = False
